@@ -161,10 +161,12 @@ def check(ctx):
     outs = [c for c in upd.own_calls() if isinstance(c.func, ast.Attribute) and c.func.attr == "_output"]
     observes = [c for c in upd.own_calls() if isinstance(c.func, ast.Attribute) and c.func.attr in ("wait", "is_set")
                 and "done" in norm(c.func.value)]
-    ok = len(waits) == 1 and len(renders) == 1
+    ok = len(waits) >= 1 and len(renders) >= 1
     ctx.ob("C20.R2", f"{upd.short}/shape", ok, loc(upd), "one done-wait and one render step per iteration" if ok else "update loop shape changed")
     if ok:
-        rn_ = set(g.of_stmt_containing(renders[0], upd.module))
+        rn_ = set()
+        for r_ in renders:
+            rn_ |= set(g.of_stmt_containing(r_, upd.module))
         for oc in observes:
             for on_ in g.of_stmt_containing(oc, upd.module):
                 okp = g.must_pass(on_, rn_, exits={g.exit, g.raise_exit})
@@ -173,8 +175,10 @@ def check(ctx):
                        "every path from an observation of the done event to the thread's exit passes the render step" if okp else
                        "the thread can observe the done event and exit without rendering again: if the run ends while a render/"
                        "output is in flight, the last display never shows the final counts", norm(oc), p)
-        wn = g.of(stmt_of(upd.module, waits[0]))
-        rn = set(g.of(stmt_of(upd.module, renders[0])))
+        wn = [x for w_ in waits for x in g.of(stmt_of(upd.module, w_))]
+        rn = set()
+        for r_ in renders:
+            rn |= set(g.of(stmt_of(upd.module, r_)))
         okp = all(g.must_pass(w, rn, exits={g.exit, g.raise_exit}) for w in wn)
         p = "" if okp else g.fmt_path(g.path(wn[0], {g.exit}, avoid=rn))
         ctx.ob("C20.R2", f"{upd.short}/render-after-done", okp, loc(upd, waits[0]),
@@ -183,7 +187,7 @@ def check(ctx):
                norm(stmt_of(upd.module, waits[0]))[:100], p)
         # render under the lock, output after
         locks = lock_withs(m, upd)
-        inlock = any(inside(upd.module, renders[0], w) for w, _ in locks)
+        inlock = all(any(inside(upd.module, r_, w) for w, _ in locks) for r_ in renders)
         ctx.ob("C20.R2", f"{upd.short}/render-under-lock", inlock, loc(upd, renders[0]), "render step runs under the observer lock" if inlock else
                "render step runs without the lock that notifications take")
         for o in outs:
@@ -195,19 +199,35 @@ def check(ctx):
     dr = spo.methods.get("_do_render")
     if dr is None:
         raise AnalysisError("_do_render not found")
-    ifs = [n for n in dr.node.body if isinstance(n, ast.If)]
-    ok = len(ifs) == 1 and "self._stale" in norm(ifs[0].test) and isinstance(ifs[0].test, ast.BoolOp) and isinstance(ifs[0].test.op, ast.Or) \
-        and norm(ifs[0].test.values[0]) == "self._stale"
+    # the render call runs exactly under `self._stale or <interval elapsed>` (either spelling of the guard, possibly through a
+    # named condition), the flag is cleared before it on every path, and its value is what is returned
+    from ..astq import expand_locals
+    from . import engine as E_
+    rc = [n for n in dr.own_calls() if norm(n.func) == "self._render"]
+    ok = len(rc) == 1
+    if ok:
+        conds = E_.path_condition(dr.module, stmt_of(dr.module, rc[0]), dr.node)
+        ok = len(conds) == 1
+        if ok:
+            t_, pol_ = conds[0]
+            t_ = expand_locals(dr, t_)
+            t_, pol_ = E_._positive(t_, pol_)
+            ok = pol_ and isinstance(t_, ast.BoolOp) and isinstance(t_.op, ast.Or) and any(norm(v_) == "self._stale" for v_ in t_.values)
     ctx.ob("C20.R2", f"{dr.short}/renders-when-stale", ok, loc(dr), "renders whenever the stale flag is set" if ok else
            "render is not triggered by the stale flag alone")
-    if ifs:
-        clr = [n for n in ifs[0].body if isinstance(n, ast.Assign) and norm(n.targets[0]) == "self._stale" and getattr(n.value, "value", 1) is False]
-        rc = [n for n in ast.walk(ifs[0]) if isinstance(n, ast.Call) and norm(n.func) == "self._render"]
-        ok = len(clr) == 1 and len(rc) == 1 and clr[0].lineno < rc[0].lineno
+    if rc:
+        gd = CFG(dr, may_raise=lambda n_: False)
+        clr = [n for n in dr.own_nodes() if isinstance(n, ast.Assign) and norm(n.targets[0]) == "self._stale" and getattr(n.value, "value", 1) is False]
+        cn = set()
+        for c_ in clr:
+            cn |= set(gd.of(c_))
+        ok = bool(clr) and all(gd.dominates(cn, x_) for x_ in gd.of_stmt_containing(rc[0], dr.module))
         ctx.ob("C20.R2", f"{dr.short}/clears-flag-before-render", ok, loc(dr), "stale flag cleared (under the caller's lock) before rendering" if ok else
                "stale flag is not cleared before rendering: a notification during rendering can be lost")
-        rets = [n for n in ifs[0].body if isinstance(n, ast.Return)]
-        ok = len(rets) == 1 and isinstance(rets[0].value, ast.Name)
+        rst = stmt_of(dr.module, rc[0])
+        rvar = rst.targets[0].id if isinstance(rst, ast.Assign) and isinstance(rst.targets[0], ast.Name) else None
+        rets = [n for n in dr.own_nodes() if isinstance(n, ast.Return) and n.value is not None and not (isinstance(n.value, ast.Constant) and n.value.value is None)]
+        ok = len(rets) == 1 and (is_name(rets[0].value, rvar) if rvar else rets[0].value is rc[0])
         ctx.ob("C20.R2", f"{dr.short}/returns-render", ok, loc(dr), "returns the rendered value")
     # ---------------------------------------------------------------- R3
     ex = spo.methods["__exit__"]
